@@ -15,7 +15,7 @@ class NativeDriver:
             s = open(p).read()
             if "mod %s;" % mod not in s:
                 with open(p, "a") as f:
-                    f.write('\n#[cfg(test)]\n#[path = "%s"]\nmod %s;\n' % (os.path.join(HERE, rsfile), mod))
+                    f.write('\n#[cfg(test)]\n#[path = "%s"]\npub(crate) mod %s;\n' % (os.path.join(HERE, rsfile), mod))
         env = dict(os.environ, CARGO_NET_OFFLINE="true")
         tdir = os.path.join(work, "replay-target")
         p = subprocess.run(["cargo", "test", "--offline", "--lib", "--no-run", "--message-format=json", "--target-dir", tdir],
